@@ -26,6 +26,8 @@ def check(run, tier):
         progs += [p for p in targeted.round2_programs(dev) if "nosplit" in p["id"] or "same-format" in p["id"]]
     for dev in ("evo", "fluent"):
         progs += [p for p in targeted.config_programs(dev) if "diti" in p["id"] or "autosplit" in p["id"]]
+    for dev in ("evo", "fluent"):
+        progs += [p for p in targeted.shape_programs(dev) if "broadcast" in p["id"]]
     for p in targeted.device_programs():
         if "wash-schemes" in p["id"]:
             progs += [p, dict(p, dev="fluent", id=p["id"] + "/fluent")]
